@@ -157,6 +157,7 @@ class P(Prop):
         for i in range(n):
             c0, c1, sp, ep, kind = self.gen_pair()
             self.oracle(c0, c1, sp, ep, kind)
+            self.again_after_edit(c0, lambda: self.oracle(c0, c1, sp, ep, kind), p=0.25, exclude=("relabel", "output"))
             if self.too_many():
                 break
 
